@@ -39,8 +39,15 @@ STRUCTS = {
                    dict(kind='raw', el=['O', 'C', 'S'], pos=[(0, 0, 0), (1.2, 0.3, 0), (2.7, 0, 0)], pose='p4', at=(6.0, 5.0, 5.0))], 'near-collinear3'),
     'S18': ('o2', [dict(motif='near-collinear4', pose='p5', at=(2.0, 4.0, 2.0)),
                    dict(kind='raw', el=['O', 'C', 'S', 'N'], pos=[(0, 0, 0), (1.2, 0.3, 0), (2.7, 0, 0), (3.9, 0.0, 0.01)], pose='p1', at=(4.5, 9.0, 5.0))], 'near-collinear4'),
+    # same geometry with the embedded one-letter element in place of the two-letter one must not match
+    'S19': ('o1', [dict(motif='ClCH', pose='p2', at=(2.0, 3.0, 3.0)),
+                   dict(kind='raw', el=['C', 'C', 'H'], pos=[(0, 0, 0), (1.7, 0, 0), (2.2, 0.95, 0)], pose='p4', at=(9.2, 6.0, 7.0)),
+                   dict(kind='raw', el=['Cu', 'C', 'H'], pos=[(0, 0, 0), (1.7, 0, 0), (2.2, 0.95, 0)], pose='p1', at=(5.0, 9.0, 2.0))], 'ClCH'),
+    # pattern axis along a cube body diagonal with an exactly antiparallel copy
+    'S20': ('o1', [dict(motif='collinear3', pose='antidiag111', at=(4.0, 5.0, 5.0)), dict(motif='collinear3', pose='diag111', at=(7.0, 2.0, 8.0))], 'collinear3'),
+    'S21': ('t3', [dict(motif='planar3', pose='antidiag1-11', at=(3.0, 4.0, 3.0)), dict(motif='planar3', pose='p3', at=(6.0, 6.0, 5.0))], 'planar3'),
 }
-PAT_POSE = {'S14': 'rz90', 'S15': 'ry90'}
+PAT_POSE = {'S14': 'rz90', 'S15': 'ry90', 'S20': 'diag111', 'S21': 'diag1-11'}
 # stretch kind with factor 0.01 on a 1.3 A motif = 0.013 A: well inside the tolerance -> counts as an occurrence
 OCCURRENCE_KINDS = ('copy', 'stretch')
 
@@ -122,17 +129,19 @@ def std_instances(tier, seed, families=('face',)):
         kw.setdefault('family', 'find')
         out.append(dict(name=name, **kw))
     others = [(0.0, 0.0, 0.0), (0.37, 0.93, 0.55)]
-    quick_structs = ['S1', 'S2', 'S3', 'S4', 'S5', 'S6', 'S8', 'S10', 'S11', 'S12', 'S13', 'S14', 'S15', 'S16', 'S17', 'S18']
+    quick_structs = ['S1', 'S2', 'S3', 'S4', 'S5', 'S6', 'S8', 'S10', 'S11', 'S12', 'S13', 'S14', 'S15', 'S16', 'S17', 'S18', 'S19', 'S20', 'S21']
     if tier == 'thorough':
         quick_structs.append('S9')
     for sname in quick_structs:
         for ax in range(3):
             o = others[(ax + len(sname)) % 2]
-            if tier == 'quick' and sname in ('S3', 'S5', 'S6', 'S8', 'S10', 'S11', 'S12', 'S13', 'S14', 'S15', 'S16', 'S17', 'S18') and ax != (len(sname) + int(sname[1:])) % 3:
+            if tier == 'quick' and sname in ('S3', 'S5', 'S6', 'S8', 'S10', 'S11', 'S12', 'S13', 'S14', 'S15', 'S16', 'S17', 'S18', 'S19', 'S20', 'S21') and ax != (len(sname) + int(sname[1:])) % 3:
                 continue
             add(f"find:{sname}:axis{ax}:other{others.index(o)}", struct=sname, axes=[ax], other=o, cost=15,
                 **({'pat_pose': PAT_POSE[sname]} if sname in PAT_POSE else {}))
     add("find:S7:axis0:ch4-random-choice", struct='S7', axes=[0], other=(0, 0.4, 0.9), cost=60)
+    add("find:S7:axis2:ch4-swapped-storage-order", struct='S7', axes=[2], other=(0.3, 0.4, 0), perm=[0, 2, 1, 3, 4], cost=60)
+    add("find:S12:axis1:swapped-storage-order", struct='S12', axes=[1], other=(0.3, 0, 0.9), perm=[0, 2, 1, 3, 5, 4], cost=30)
     add("find:S1:axis0:atol-sym", struct='S1', axes=[0], other=(0, 0.3, 0.95), atol='sym', atol_lo=0.01, atol_hi=0.2, cost=40)
     if tier == 'thorough':
         for sname in ['S1', 'S2', 'S4']:
@@ -148,3 +157,75 @@ def std_instances(tier, seed, families=('face',)):
             sname = ['S1', 'S2', 'S9', 'S11', 'S4', 'S10'][k]
             add(f"find:{sname}:axis{k % 3}:seeded-other{k}", struct=sname, axes=[k % 3], other=o, cost=30)
     return out
+
+
+# ------------------------------------------------------------------------------------------------ family F2a: axis world
+def axis_instances(tier):
+    out = [dict(name='axis:CH-in-[C,H]', family='axis', elems=['C', 'H'], pat_el=['C', 'H'], pat_x=[0.0, 1.0], cost=40),
+           dict(name='axis:CC-in-[C,C]', family='axis', elems=['C', 'C'], pat_el=['C', 'C'], pat_x=[0.0, 1.5], cost=40)]
+    if tier == 'thorough':
+        out.append(dict(name='axis:CH-in-[C,H,H]', family='axis', elems=['C', 'H', 'H'], pat_el=['C', 'H'], pat_x=[0.0, 1.0], cost=1500))
+        out.append(dict(name='axis:HC-in-[C,H,C]', family='axis', elems=['C', 'H', 'C'], pat_el=['H', 'C'], pat_x=[0.3, 1.6], cost=1500))
+    return out
+
+
+def axis_body(ctx, p):
+    """all atoms on a line parallel to x: EVERY x-coordinate, the cell width a and the tolerance are symbolic (all geometry is linear:
+    sqrt(t*t) = |t|).  Oracle for the 2-atom pattern at distance D: the ordered pair (i, j) is an occurrence iff for some image k in
+    {-1,0,1}  | |x_j + k*a - x_i| - D | <= atol  (two-sided with 1e-6 slack); returned positions = stored + (k*a,0,0); rotation check."""
+    Atoms = ctx.ms.Atoms
+    Mm = ctx.ms.mofun
+    elems, pat_el, pat_x = p['elems'], p['pat_el'], p['pat_x']
+    N = len(elems)
+    D = max(pat_x) - min(pat_x)
+    atol = ctx.real('atol', 0.001, 0.2, hi_strict=False)
+    a = ctx.real('a', 1.0, 30.0, hi_strict=False)
+    ctx.assume(a > D + 2 * atol + 0.001)
+    xs = [ctx.real(f"x{i}", 0, 30) for i in range(N)]
+    for x in xs:
+        ctx.assume(x < a)
+    pattern = Atoms(elements=pat_el, positions=[(x, 0, 0) for x in pat_x])
+    st = Atoms(elements=elems, positions=np.zeros((N, 3)), cell=10 * np.identity(3))
+    if ctx.sym:
+        pattern.positions = pattern.positions.astype(object)
+        st.positions = np.array([[x, 5.0, 5.0] for x in xs], dtype=object)
+        st.cell = np.array([[a, 0.0, 0.0], [0.0, 10.0, 0.0], [0.0, 0.0, 10.0]], dtype=object)
+    else:
+        st.positions = np.array([[x, 5.0, 5.0] for x in xs], dtype=float)
+        st.cell = np.array([[a, 0.0, 0.0], [0.0, 10.0, 0.0], [0.0, 0.0, 10.0]], dtype=float)
+    idx, pos, quats = Mm.find_pattern_in_structure(st, pattern, atol=atol, return_positions_and_quats=True)
+    idx = [tuple(int(i) for i in t) for t in idx]
+    ctx.observe('matches', sorted(idx))
+    found = set(idx)
+    ctx.require('no match reported twice', len(found) == len(idx))
+    eps = 1e-6
+    with core.nosimplify():
+        homo = pat_el[0] == pat_el[1]
+        if homo:
+            ctx.require('a symmetric pattern reports each atom group once (not both orderings)', not any((j, i) in found for (i, j) in found))
+        for i in range(N):
+            for j in range(N):
+                if i == j or elems[i] != pat_el[0] or elems[j] != pat_el[1] or (homo and j < i):
+                    continue
+                dist = [abs(xs[j] + k * a - xs[i]) for k in (-1, 0, 1)]
+                inside = OR(*[AND(d - D <= atol - eps, D - d <= atol - eps) for d in dist])
+                outside = AND(*[OR(d - D >= atol + eps, D - d >= atol + eps) for d in dist])
+                if (i, j) in found or (homo and (j, i) in found):
+                    ctx.require('a reported pair is not clearly outside the tolerance (for any periodic image)', NOT(outside), detail=dict(pair=(i, j)))
+                else:
+                    ctx.require('a pair clearly inside the tolerance (through some periodic image) is reported', NOT(inside), detail=dict(pair=(i, j)))
+        for t in found:
+            ctx.require('match lists distinct existing atoms with the pattern elements',
+                        len(t) == 2 and t[0] != t[1] and all(0 <= q < N for q in t) and elems[t[0]] == pat_el[0] and elems[t[1]] == pat_el[1], detail=dict(match=t))
+        pp = np.array([(x, 0.0, 0.0) for x in pat_x])
+        for t, ps, q in zip(idx, pos, quats):
+            r = q.r if hasattr(q, 'r') else q
+            rp = r.apply(pp - pp[0])
+            for m, ai in enumerate(t):
+                dx = ps[m][0] - xs[ai]
+                ctx.require('returned position = stored position plus a lattice vector', AND(OR(EQ(dx, 0), EQ(dx, a), EQ(dx, -a)), EQ(ps[m][1], 5.0), EQ(ps[m][2], 5.0)),
+                            detail=dict(match=t, atom=m))
+                for c in range(3):
+                    d = ps[m][c] - ps[0][c] - float(rp[m][c])
+                    ctx.require('returned rotation carries the pattern onto the returned positions within the tolerance', AND(d <= atol + 1e-3, -d <= atol + 1e-3),
+                                detail=dict(match=t, atom=m, comp=c))
